@@ -19,8 +19,9 @@ import math
 
 LEVEL = 'exploration'
 ASSUMPTIONS = [
-    'table values are float64 evaluations; an entry is accepted when it is within 2e-12 x (sum of |cosine coefficients| of '
-    'F_lmp^2) of the exact value on every node (worst pristine deviation measured 1.0e-13 of that scale)',
+    'table values are float64 evaluations; an entry is accepted when it is within 2e-11 x (sum of |cosine coefficients| of '
+    'F_lmp^2) of the exact value on every node (worst pristine deviation over all node offsets: 1.4e-12 of that scale, '
+    'l=7 (3,4), from cancellation inside the shipped bracketed expressions; compiled vs interpreted: 1.7e-12)',
     'equality for all I follows from equality on 1024 equispaced nodes of I/2 because each table expression is a '
     'trigonometric polynomial in I/2 of degree < 512; this is established per run from the source AST of the table '
     'function (sin/cos of i/2, i, 2i, 3i combined with + - * and non-negative integer powers); if the AST cannot be '
@@ -29,8 +30,8 @@ ASSUMPTIONS = [
 ]
 
 M_NODES = 1024
-TOL = 2e-12               # relative to sum |a_k| of the exact cosine series of F^2
-TOL_PYVSJIT = 1e-13       # compiled vs interpreted evaluation of the same expression (same scale)
+TOL = 2e-11               # relative to sum |a_k| of the exact cosine series of F^2
+TOL_PYVSJIT = 2e-11       # compiled vs interpreted evaluation of the same expression (same scale)
 SHIFTS = [0, 1, 3, 5, 7]  # node offset d/8, rotated by the seed
 OBLIQ_MENU = [(0.0, 0.409, 1.7, 3.0), (0.0, 0.2, 1.1, 2.6), (0.0, 0.7, 1.5707963267948966, 2.2), (0.0, 0.05, 0.9, 3.141592653589793),
               (0.0, 0.3, 1.3, 2.9)]
@@ -357,21 +358,30 @@ def _case_lookup(case):
         for l in keys:
             if l not in L_RANGE:
                 continue
-            per = getattr(inf, f'calc_inclin_l{l}' + ('' if on else '_off'))(I)
-            ka, kb = _keys(res[l]), _keys(per)
-            if ka != kb:
-                viol.append(('C09/lookup/entry-keys', dict(on=on, max_l=L, l=l, only_lookup=sorted(ka - kb)[:5],
-                                                           only_table=sorted(kb - ka)[:5])))
-                continue
+            fl = getattr(inf, f'calc_inclin_l{l}' + ('' if on else '_off'))
+            # quick: the per-l table evaluated from its Python source lines (no second compilation on the critical
+            # path; compiled == source is established by the 'on'/'off' cases); thorough: also the compiled per-l
+            # dispatcher, which must be reproduced bit for bit
+            pers = [('python', getattr(fl, 'py_func', fl)(I), TOL_PYVSJIT)]
+            if case.get('exact') and hasattr(fl, 'py_func'):
+                pers.append(('compiled', fl(I), 0.0))
             chk = 0.0
-            for k in sorted(ka):
-                a, b = np.asarray(res[l][k]), np.asarray(per[k])
-                nval += a.size
-                chk += float(np.sum(a))
-                if a.shape != b.shape or not np.array_equal(a, b):
-                    viol.append(('C09/lookup/value', dict(on=on, max_l=L, l=l, m=k[0], p=k[1],
-                                                          max_diff=float(np.max(np.abs(a - b))) if a.shape == b.shape else None)))
-                    break
+            for how, per, tol in pers:
+                ka, kb = _keys(res[l]), _keys(per)
+                if ka != kb:
+                    viol.append(('C09/lookup/entry-keys', dict(on=on, max_l=L, l=l, vs=how, only_lookup=sorted(ka - kb)[:5],
+                                                               only_table=sorted(kb - ka)[:5])))
+                    continue
+                for k in sorted(ka):
+                    a, b = np.asarray(res[l][k], dtype=np.float64), np.asarray(per[k], dtype=np.float64)
+                    nval += a.size
+                    if how == 'python':
+                        chk += float(np.sum(a))
+                    sc = kaula.F2_scale(l, *k) if (0 <= k[0] <= l and 0 <= k[1] <= l) else 1.0
+                    if a.shape != b.shape or not np.all(np.abs(a - b) <= tol * sc):
+                        viol.append(('C09/lookup/value', dict(on=on, max_l=L, l=l, m=k[0], p=k[1], vs=how,
+                                     max_diff=float(np.max(np.abs(a - b))) if a.shape == b.shape else None)))
+                        break
             obs.append((l, round(chk, 6)))
     except Exception as e:
         viol.append((f'C09/lookup/exception/{type(e).__name__}', dict(on=on, max_l=L, msg=str(e)[:300])))
@@ -412,6 +422,9 @@ def run_case(case):
     import os
     import time
     t0 = time.time()
+    if os.environ.get('VERIF_TBDIR'):
+        import faulthandler
+        faulthandler.dump_traceback_later(100, file=open(os.path.join(os.environ['VERIF_TBDIR'], f'tb-{os.getpid()}'), 'w'))
     from mc import env
     env.tidalpy()
     kind = case['kind']
@@ -435,18 +448,21 @@ def run(ctx):
         raise HarnessError(f'Kaula reference failed its self-check: {e}')
     shift = SHIFTS[ctx.seed % len(SHIFTS)]
     obl = list(OBLIQ_MENU[ctx.seed % len(OBLIQ_MENU)])
-    cases = [dict(kind='lookup', on=on, max_l=L, shift=shift, obliquities=obl) for on in (True, False) for L in L_RANGE]
-    cases += [dict(kind='on', l=l, shift=shift, obliquities=obl, scalar=ctx.thorough) for l in L_RANGE]
-    cases += [dict(kind='off', l=l, obliquities=obl) for l in L_RANGE]
-    cases += [dict(kind='universal')]
-    cases.sort(key=lambda c: -((c.get('l') or c.get('max_l') or 0) * (3 if c.get('on') else 1)
-                               * (2 if c['kind'] == 'lookup' else 1)))
-    res = run_lattice(ctx, 'mc.props.C09:run_case', cases, chunk=1,
-                      rule='l in 2..7 x every (m, p) in (0..l)^2, on-tables (interpreted source and compiled) on 1024 '
-                           'equispaced nodes of I/2 vs exact Kaula F_lmp^2 + DFT degree bound 4l; off-tables (all entries, all '
-                           'omitted entries) vs exact F_lmp(0)^2 and the on-table at 0; lookup[on/off][max_l] vs per-l tables; '
-                           'get_universal_coeffs(l) for all m; distinct = distinct table value vectors',
-                      exhaustive=True)
+    # two phases: per-l tables first (compiled once, cached on disk by numba), then the lookups that call them
+    cases1 = [dict(kind='on', l=l, shift=shift, obliquities=obl, scalar=ctx.thorough) for l in reversed(L_RANGE)]
+    cases1 += [dict(kind='off', l=l, obliquities=obl) for l in reversed(L_RANGE)]
+    cases1 += [dict(kind='universal')]
+    cases2 = [dict(kind='lookup', on=on, max_l=L, shift=shift, obliquities=obl, exact=ctx.thorough)
+              for L in reversed(L_RANGE) for on in (True, False)]
+    res1 = run_lattice(ctx, 'mc.props.C09:run_case', cases1, chunk=1,
+                       rule='l in 2..7 x every (m, p) in (0..l)^2, on-tables (interpreted source and compiled) on 1024 '
+                            'equispaced nodes of I/2 vs exact Kaula F_lmp^2 + DFT degree bound 4l; off-tables (all entries, all '
+                            'omitted entries) vs exact F_lmp(0)^2 and the on-table at 0; get_universal_coeffs(l) for all m; '
+                            'distinct = distinct table value vectors',
+                       exhaustive=True)
+    res2 = run_lattice(ctx, 'mc.props.C09:run_case', cases2, chunk=1,
+                       rule='lookup[on/off][max_l] (compiled) vs per-l tables, key by key', exhaustive=True)
+    cases, res = cases1 + cases2, res1 + res2
     if os.environ.get('VERIF_TIMING'):
         for c, r in sorted(zip(cases, res), key=lambda cr: -cr[1]['t'])[:12]:
             print('   timing', r['t'], r['pid'], {k: v for k, v in c.items() if k not in ('obliquities',)}, flush=True)
